@@ -30,6 +30,7 @@ import (
 	"sort"
 	"strings"
 	"testing"
+	"time"
 
 	"github.com/bufbuild/buf/private/bufpkg/bufmodule"
 	"github.com/bufbuild/buf/private/bufpkg/bufmodule/bufmoduletesting"
@@ -506,6 +507,171 @@ func vr09Tamper(ctx context.Context, v *vr09, modules []*vr09Module) int {
 	return tried
 }
 
+// ----- commit store (ca-U) -----
+//
+//   - invalid-file family: the commit file of a requested key holds something that is not a valid record of the
+//     current version for that key (empty, corrupted JSON, incomplete / other version, unparsable digest, digest of
+//     another digest type). Oracle: the read reports the key as NOT FOUND (or fails) - it never reports a hit without a
+//     Commit; the invalid file is evicted; a later store of the commit repairs the entry.
+//   - fault family: the k-th write-side operation of PutCommits fails. Oracle: the store reports the failure, the
+//     commit is not readable afterwards, a later fault-free store repairs it.
+//   - pinned-digest family: a commit cached for a module key is read through a module key with another digest.
+//     Oracle: the digest of the returned Commit's ModuleKey fails (DigestMismatchError), it never yields a digest.
+func vr09Commits(ctx context.Context, v *vr09, modules []*vr09Module) int {
+	tried := 0
+	logger := slog.New(slog.NewTextHandler(bytes.NewBuffer(nil), nil))
+	createTime := time.Date(2024, 1, 2, 3, 4, 5, 0, time.UTC)
+	for _, m := range modules {
+		m := m
+		commit := bufmodule.NewCommit(m.key, func() (time.Time, error) { return createTime, nil })
+		commitKey, err := bufmodule.ModuleKeyToCommitKey(m.key)
+		if err != nil {
+			continue
+		}
+		filePath := getCommitStoreDirPath(commitKey) + "/" + getCommitStoreFilePath(commitKey)
+		digest, err := m.key.Digest()
+		if err != nil {
+			continue
+		}
+		// fault-free round trip
+		clean := &vr09Bucket{ReadWriteBucket: storagemem.NewReadWriteBucket(), failAt: -1}
+		store := NewCommitStore(logger, clean)
+		if err := store.PutCommits(ctx, []bufmodule.Commit{commit}); err != nil {
+			v.report("commit store, commit of module %s: a store on an empty healthy cache fails: %v", m.desc, vr09Short(err))
+			continue
+		}
+		validFile, err := storage.ReadPath(ctx, clean.ReadWriteBucket, filePath)
+		if err != nil {
+			v.report("commit store, commit of module %s: after a successful store the commit file %s does not exist", m.desc, filePath)
+			continue
+		}
+		readBack := func(store CommitStore, input string) (found bool) {
+			for _, via := range []string{"GetCommitsForCommitKeys", "GetCommitsForModuleKeys"} {
+				var commits []bufmodule.Commit
+				var missing int
+				var err error
+				if via == "GetCommitsForCommitKeys" {
+					var nf []bufmodule.CommitKey
+					commits, nf, err = store.GetCommitsForCommitKeys(ctx, []bufmodule.CommitKey{commitKey})
+					missing = len(nf)
+				} else {
+					var nf []bufmodule.ModuleKey
+					commits, nf, err = store.GetCommitsForModuleKeys(ctx, []bufmodule.ModuleKey{m.key})
+					missing = len(nf)
+				}
+				if err != nil {
+					continue // an error is not a hit
+				}
+				if len(commits)+missing != 1 {
+					v.report("%s: %s answers with %d found and %d not found for 1 key", input, via, len(commits), missing)
+					continue
+				}
+				if len(commits) == 1 {
+					found = true
+					if commits[0] == nil {
+						v.report("%s: %s reports the key as FOUND with a nil Commit and no error (an invalid commit file must be a miss)", input, via)
+						continue
+					}
+					gotDigest, err := commits[0].ModuleKey().Digest()
+					if err != nil || !bufmodule.DigestEqual(gotDigest, digest) || commits[0].ModuleKey().CommitID() != m.key.CommitID() {
+						v.report("%s: %s finds a commit that is not the stored one (digest %v, err %v)", input, via, gotDigest, err)
+					}
+				}
+			}
+			return found
+		}
+		if !readBack(store, fmt.Sprintf("commit store, commit of module %s stored on an empty cache", m.desc)) {
+			v.report("commit store, commit of module %s: after a successful store the commit is not found", m.desc)
+		}
+		// invalid-file family
+		otherType := strings.Replace(string(validFile), "\"digest\":\"b5:", "\"digest\":\"shake256:", 1)
+		invalids := []struct{ desc, content string }{
+			{"an empty file", ""},
+			{"corrupted JSON", string(validFile[:len(validFile)/2])},
+			{"an incomplete record without version: " + `{"owner":"foo","module":"bar"}`, `{"owner":"foo","module":"bar"}`},
+			{"a record of another version (v0)", strings.Replace(string(validFile), "\"version\":\"v1\"", "\"version\":\"v0\"", 1)},
+			{"a record with an unparsable digest", strings.Replace(string(validFile), "\"digest\":\"b5:", "\"digest\":\"zz:", 1)},
+			{"a record whose digest has another digest type (b4) than the key (b5)", otherType},
+		}
+		for _, inv := range invalids {
+			if inv.content == string(validFile) {
+				continue
+			}
+			tried++
+			b := &vr09Bucket{ReadWriteBucket: storagemem.NewReadWriteBucket(), failAt: -1}
+			if err := storage.PutPath(ctx, b.ReadWriteBucket, filePath, []byte(inv.content)); err != nil {
+				continue
+			}
+			store := NewCommitStore(logger, b)
+			input := fmt.Sprintf("commit store, key of module %s, commit file %s holds %s", m.desc, filePath, inv.desc)
+			if readBack(store, input) {
+				continue // reported above if it was a nil / wrong commit
+			}
+			if err := store.PutCommits(ctx, []bufmodule.Commit{commit}); err != nil {
+				v.report("%s: a later store of the commit fails: %v", input, vr09Short(err))
+				continue
+			}
+			if !readBack(store, input+", then a store of the commit") {
+				v.report("%s: a later store of the commit does not repair the entry (still not found)", input)
+			}
+		}
+		// fault family
+		total := clean.n
+		for _, sticky := range []bool{false, true} {
+			for k := 0; k < total; k++ {
+				tried++
+				b := &vr09Bucket{ReadWriteBucket: storagemem.NewReadWriteBucket(), failAt: k, sticky: sticky}
+				store := NewCommitStore(logger, b)
+				err := store.PutCommits(ctx, []bufmodule.Commit{commit})
+				if b.fired == "" {
+					continue
+				}
+				input := fmt.Sprintf("commit store, store of the commit of module %s where %s", m.desc, b.fired)
+				b.failAt = -1
+				if err == nil {
+					v.report("%s: the store reports success although a write failed", input)
+					continue
+				}
+				if readBack(store, input) {
+					v.report("%s: the store fails (%v) but the commit is readable afterwards", input, vr09Short(err))
+					continue
+				}
+				if err := store.PutCommits(ctx, []bufmodule.Commit{commit}); err != nil || !readBack(store, input+", then a fault-free store") {
+					v.report("%s: a later fault-free store does not repair the entry (err %v)", input, err)
+				}
+			}
+		}
+		// pinned-digest family: same name and commit ID, the digest of another module
+		for _, other := range modules {
+			if other == m {
+				continue
+			}
+			tried++
+			otherDigest, err := other.key.Digest()
+			if err != nil {
+				continue
+			}
+			pinned, err := bufmodule.NewModuleKey(m.key.FullName(), m.key.CommitID(), func() (bufmodule.Digest, error) { return otherDigest, nil })
+			if err != nil {
+				continue
+			}
+			b := &vr09Bucket{ReadWriteBucket: storagemem.NewReadWriteBucket(), failAt: -1}
+			store := NewCommitStore(logger, b)
+			if err := store.PutCommits(ctx, []bufmodule.Commit{commit}); err != nil {
+				continue
+			}
+			commits, _, err := store.GetCommitsForModuleKeys(ctx, []bufmodule.ModuleKey{pinned})
+			if err != nil || len(commits) == 0 || commits[0] == nil {
+				continue
+			}
+			if d, err := commits[0].ModuleKey().Digest(); err == nil {
+				v.report("commit store, commit of module %s cached, read through a module key pinning the digest of %s: the returned commit yields digest %v without a mismatch error", m.desc, other.desc, d)
+			}
+		}
+	}
+	return tried
+}
+
 func TestVerifReplayC09(t *testing.T) {
 	fn := os.Getenv("VERIF_REPLAY_FUNC")
 	ctx := context.Background()
@@ -524,6 +690,9 @@ func TestVerifReplayC09(t *testing.T) {
 		if fn == "getModuleDataForModuleKey" || fn == "GetModuleDatasForModuleKeys" {
 			tried += vr09Tamper(ctx, v, modules)
 		}
+	case "getCommitForCommitKey", "GetCommitsForCommitKeys", "GetCommitsForModuleKeys", "putCommit", "PutCommits",
+		"deleteInvalidCommitFile", "getReadWriteBucketForDir", "getCommitStoreDirPath", "getCommitStoreFilePath", "newCommit", "NewCommit":
+		tried += vr09Commits(ctx, v, modules)
 	case "Bucket", "DepModuleKeys", "V1Beta1OrV1BufYAMLObjectData", "V1Beta1OrV1BufLockObjectData", "newModuleData", "NewModuleData", "checkDigest":
 		tried += vr09Tamper(ctx, v, modules)
 	default:
